@@ -11,7 +11,7 @@ use gamedig::protocols::types::GatherToggle;
 use gamedig::protocols::valve::{self, Engine, GatheringSettings};
 use std::sync::OnceLock;
 
-#[derive(Clone, Copy, Debug, PartialEq, Eq)]
+#[derive(Clone, Copy, Debug, PartialEq, Eq, Hash)]
 pub enum EngineCfg {
     SourceNone,
     App440,
@@ -467,7 +467,7 @@ impl Prop for C02 {
                                     format!("wrapper-appid:{name}"),
                                     &x.choices(),
                                     "per-game wrapper did not reject a foreign app id with BadGame",
-                                    x.outcome.describe(),
+                                    x.outcome.describe_json(),
                                     "Err(BadGame)",
                                     crate::vnet::render_log(&x.log),
                                 );
